@@ -83,6 +83,8 @@ impl Method for FixedMethod {
             self.pending_kar = None;
             self.typed.pop();
             if self.buffer.is_empty() {
+                // The input session has ended, so the typed keys are no longer needed.
+                self.typed.clear();
                 return Suggestion::empty();
             }
             return self.create_suggestion(data, config);
@@ -94,6 +96,8 @@ impl Method for FixedMethod {
 
             if self.buffer.is_empty() {
                 // The buffer is now empty, so return empty suggestion.
+                // A key may type more than one character (or none), so some typed keys may remain.
+                self.typed.clear();
                 return Suggestion::empty();
             }
 
